@@ -90,6 +90,12 @@ func (it *interp) intVal(v ssa.Value) (int64, bool) {
 			}
 		}
 	case *ssa.Convert:
+		// The domain is "inputs are only compared". A conversion that changes signedness (or narrows) of
+		// an input value is outside it: int64(a - b) < 0 is not a > b for unsigned a, b.
+		if _, isConst := x.X.(*ssa.Const); !isConst && changesIntegerMeaning(x.X.Type(), x.Type()) {
+			it.why = "a signedness-changing or narrowing conversion of an input value is outside the comparison-only fragment: " + Render(v)
+			return 0, false
+		}
 		return it.intVal(x.X)
 	case *ssa.ChangeType:
 		return it.intVal(x.X)
@@ -101,6 +107,14 @@ func (it *interp) intVal(v ssa.Value) (int64, bool) {
 			}
 		}
 	case *ssa.BinOp:
+		// arithmetic is exact only with a constant offset (round+1); the difference or sum of two inputs
+		// can wrap and is not a comparison
+		_, c1 := x.X.(*ssa.Const)
+		_, c2 := x.Y.(*ssa.Const)
+		if !c1 && !c2 && (x.Op == token.ADD || x.Op == token.SUB || x.Op == token.MUL) {
+			it.why = "arithmetic on two input values is outside the comparison-only fragment: " + Render(v)
+			return 0, false
+		}
 		a, ok1 := it.intVal(x.X)
 		b, ok2 := it.intVal(x.Y)
 		if ok1 && ok2 {
@@ -531,3 +545,26 @@ func b0(r *ssa.Return) *ssa.BasicBlock { return r.Block() }
 
 // prevOf keeps the predecessor used for phi resolution.
 func prevOf(_ *ssa.BasicBlock, prev *ssa.BasicBlock) *ssa.BasicBlock { return prev }
+
+// changesIntegerMeaning: converting from -> to can change the numeric value of an integer
+// (signed<->unsigned, or to a narrower type).
+func changesIntegerMeaning(from, to types.Type) bool {
+	fb, ok1 := from.Underlying().(*types.Basic)
+	tb, ok2 := to.Underlying().(*types.Basic)
+	if !ok1 || !ok2 || fb.Info()&types.IsInteger == 0 || tb.Info()&types.IsInteger == 0 {
+		return false
+	}
+	fu, tu := fb.Info()&types.IsUnsigned != 0, tb.Info()&types.IsUnsigned != 0
+	size := func(b *types.Basic) int {
+		switch b.Kind() {
+		case types.Int8, types.Uint8:
+			return 8
+		case types.Int16, types.Uint16:
+			return 16
+		case types.Int32, types.Uint32:
+			return 32
+		}
+		return 64
+	}
+	return fu != tu || size(tb) < size(fb)
+}
